@@ -29,6 +29,10 @@ with Rust's mutation expressed by shadowing, `for` loops as `List.foldlM` of a n
 the slice / `zipIdx`, `while` loops as named recursive helpers on fuel.  Loop helpers are named `<fn>_for<k>`,
 `<fn>_while<k>` (k-th loop of that kind in source order); temporaries `t<k>`.  Compound assignments are normalised
 (`x += e` and `x = x + e` give the same text).
+
+Units with `dialect="cf"` are handled by the subclasses of tools/rs2lean_cf.py (loops with break/continue/return as
+recursive helpers, by_ref iterators, VecDeque, Option, match, closures of fold/all/map, structs, opaque containers,
+condition holes); this file only chooses the classes (`translate_unit`) and the parser (`parser_class`).
 """
 import sys, os, re, argparse
 
